@@ -17,10 +17,12 @@ impl GenerationPass for NodeDirectionPass {
         for node in cfg.iter() {
             // If node jumps to another node, add it to the nexts of the current node and the prevs of the node it jumps to.
             if let Some(label) = node.jumps_to() {
+                // A label that no instruction follows (a label at the end
+                // of the file) is not a place to jump to.
                 let jump_to_node = cfg
                     .iter()
                     .find(|n| n.labels.contains(&label))
-                    .ok_or_else(|| CfgError::UnexpectedError)?;
+                    .ok_or_else(|| CfgError::LabelsNotDefined([label.clone()].into()))?;
 
                 node.insert_next(Rc::clone(&jump_to_node));
                 jump_to_node.insert_prev(Rc::clone(&node));
